@@ -38,6 +38,9 @@ type TimeWheel struct {
 
 	updateNotify chan time.Time
 	stopNotify   chan struct{}
+	// Closed when the tick goroutine is gone, releases Add calls that have
+	// passed the stopped check already.
+	done chan struct{}
 
 	dispatch func(TimeSlot)
 }
@@ -47,6 +50,7 @@ func NewTimeWheel(dispatch func(TimeSlot)) *TimeWheel {
 		slots:        list.New(),
 		stopNotify:   make(chan struct{}),
 		updateNotify: make(chan time.Time),
+		done:         make(chan struct{}),
 		dispatch:     dispatch,
 	}
 	go tw.tick()
@@ -67,7 +71,12 @@ func (tw *TimeWheel) Add(target time.Time, value interface{}) {
 	tw.slots.PushBack(TimeSlot{Time: target, Value: value})
 	tw.slotsLock.Unlock()
 
-	tw.updateNotify <- target
+	// Close may run between the check above and this point. The tick
+	// goroutine is gone then and nobody will ever receive.
+	select {
+	case tw.updateNotify <- target:
+	case <-tw.done:
+	}
 }
 
 func (tw *TimeWheel) Close() {
@@ -83,7 +92,10 @@ func (tw *TimeWheel) Close() {
 
 	tw.stopNotify = nil
 
-	close(tw.updateNotify)
+	// updateNotify is not closed: a concurrent Add would panic sending to it
+	// (and the queue takes a panic in a delivery goroutine for a broken
+	// message and renames its metadata file).
+	close(tw.done)
 }
 
 func (tw *TimeWheel) tick() {
